@@ -308,3 +308,84 @@ def is_self_attr(e, attr=None):
 def const_value(ctx, scope, e):
     ok, v = ctx.try_fold(scope, e)
     return v if ok else None
+
+
+# ---------------------------------------------------------------------------
+# constant propagation of `name = <constant>` to prune infeasible branch edges
+
+_TOP = ("top",)
+
+
+def infeasible_edges(cfg, func, avoid_edges=()):
+    """Branch out-edges (test node, label) that cannot be taken because the tested local
+    name certainly holds a known constant there (e.g. `x = None ... if x:`)."""
+    def transfer(n, st, lab):
+        if lab == "exc":
+            return st
+        s = n.ast
+        new = None
+        if n.kind in ("stmt",) and isinstance(s, ast.Assign):
+            new = dict(st)
+            for t in s.targets:
+                for nm in [x for x in ast.walk(t) if isinstance(x, ast.Name)]:
+                    if isinstance(t, ast.Name) and isinstance(s.value, ast.Constant):
+                        new[nm.id] = ("c", s.value.value)
+                    elif isinstance(t, ast.Name):
+                        new[nm.id] = _TOP
+                    elif isinstance(t, (ast.Tuple, ast.List)):
+                        new[nm.id] = _TOP
+        elif n.kind in ("stmt",) and isinstance(s, (ast.AugAssign, ast.AnnAssign)) and isinstance(s.target, ast.Name):
+            new = dict(st)
+            new[s.target.id] = _TOP
+        elif n.kind in ("for_next",):
+            new = dict(st)
+            for nm in [x for x in ast.walk(s.target) if isinstance(x, ast.Name)]:
+                new[nm.id] = _TOP
+        elif n.kind == "with_enter" and n.info["item"].optional_vars is not None:
+            new = dict(st)
+            for nm in [x for x in ast.walk(n.info["item"].optional_vars) if isinstance(x, ast.Name)]:
+                new[nm.id] = _TOP
+        elif n.kind == "handler" and s.name:
+            new = dict(st)
+            new[s.name] = _TOP
+        if new is None:
+            return st
+        return tuple(sorted(new.items(), key=lambda kv: kv[0]))
+
+    def join(states):
+        a = dict(states[0])
+        for b in states[1:]:
+            b = dict(b)
+            for k in set(a) | set(b):
+                if a.get(k, _TOP) != b.get(k, _TOP):
+                    a[k] = _TOP
+        return tuple(sorted(a.items(), key=lambda kv: kv[0]))
+
+    def tr(n, st, lab):
+        r = transfer(n, dict(st), lab)
+        return r if isinstance(r, tuple) else tuple(sorted(r.items()))
+    IN = forward(cfg, tuple(), tr, join, avoid_edges=set(avoid_edges))
+    out = set()
+    for t in cfg.live:
+        if t.kind != "test" or IN.get(t) is None:
+            continue
+        st = dict(IN[t])
+        e = t.exprs[0]
+        val = None
+
+        def known(nm):
+            v = st.get(nm)
+            return v if (v is not None and v != _TOP) else None
+        if isinstance(e, ast.Name) and known(e.id):
+            val = bool(known(e.id)[1])
+        elif isinstance(e, ast.UnaryOp) and isinstance(e.op, ast.Not) and isinstance(e.operand, ast.Name) and known(e.operand.id):
+            val = not bool(known(e.operand.id)[1])
+        elif isinstance(e, ast.Compare) and len(e.ops) == 1 and isinstance(e.left, ast.Name) and known(e.left.id) \
+                and isinstance(e.comparators[0], ast.Constant) and isinstance(e.ops[0], (ast.Is, ast.IsNot)):
+            same = known(e.left.id)[1] is e.comparators[0].value
+            val = same if isinstance(e.ops[0], ast.Is) else (not same)
+        if val is True:
+            out.add((t, "false"))
+        elif val is False:
+            out.add((t, "true"))
+    return out
